@@ -75,7 +75,7 @@ def gen_case(seed, tier, prop="C20"):
     if rng.random() < 0.3:
         n = rng.randint(3, 40 if big else 24)
         typed = rng.random() < 0.4
-        seq_ttl = rng.choice([None, None, 1, 2])
+        seq_ttl = rng.choice([None, None, 1, 2, 0, 0.5])      # 0: every entry has expired as soon as it is stored
         ops = []
         for _ in range(n):
             r = rng.random()
@@ -103,7 +103,7 @@ def gen_case(seed, tier, prop="C20"):
     script = [{"dur": rng.choice(DUR), "fail": rng.random() < fail_p} for _ in range(64)]
     loop = LoopConfig(eager=rng.random() < 0.3, cap=20000, p_late=rng.choice([0, 0, 0.2]), p_stall=0).to_json()
     return {"engine": "lru", "type": "conc", "maxsize": rng.choice([None, 0, 1, 1, 2, 3]), "typed": rng.random() < 0.3,
-            "ttl": rng.choice([None, None, None, 1, 2]), "always_checkpoint": rng.random() < 0.3, "callers": callers,
+            "ttl": rng.choice([None, None, None, 1, 2, 0]), "always_checkpoint": rng.random() < 0.3, "callers": callers,
             "script": script, "loop": loop, "sched_seed": rng.getrandbits(32)}
 
 
@@ -438,7 +438,7 @@ class LruCheck:
     def bounds(self, tier):
         big = tier == "thorough"
         return {"keys": KEYS, "callers": [1, 5 if big else 4], "calls_per_caller": [1, 6 if big else 4],
-                "maxsize": ["None", 0, 1, 2, 3], "ttl": ["None", 1, 2], "sequential_history_length": [3, 40 if big else 24]}
+                "maxsize": ["None", 0, 1, 2, 3], "ttl": ["None", 0, 0.5, 1, 2], "sequential_history_length": [3, 40 if big else 24]}
 
     def gen_case(self, seed, tier):
         return gen_case(seed, tier)
